@@ -21,8 +21,12 @@ Clauses (from the statement):
   KEYS   a re-made descriptor is a new one (fresh uid) with unchanged data keys and objects
   CONF   configure(obj): exactly the streams containing obj get one new descriptor, carrying the configuration obj reports
          now; nothing else is emitted, streams without obj are untouched
-  EV_B / EV_M / EV_C   every bundled event / monitor event / collected event page is emitted, belongs to the expected stream,
-         references that stream's *latest* descriptor, and that descriptor carries the configuration its objects report now
+  EV_B / EV_M / EV_C   every bundled event / monitor event / collected event page (or stream_datum of a detector writing stream
+         assets) is emitted, belongs to the expected stream, references that stream's *latest* descriptor, and that descriptor
+         carries the configuration its objects report now
+  FROZEN a descriptor that has been emitted keeps the configuration it was emitted with (a later configure makes a new
+         descriptor, it does not rewrite the old one)
+  QUIET  declare_stream / monitor emit exactly their stream's descriptor, a dropped bundle emits nothing
 """
 
 Q = "bluesky.bundlers:RunBundler"
@@ -33,7 +37,8 @@ EV_B = f"{Q}.save#ensures[every bundled event references its stream's latest des
 EV_M = f"{Q}.monitor.emit_event#ensures[every monitor event references its stream's latest descriptor, which carries the configuration its object reports]"
 EV_C = f"{Q}.collect#ensures[every collected event page references its stream's latest descriptor, which carries the configuration the flyer reports]"
 QUIET = f"{Q}#ensures[declare_stream / monitor emit exactly the descriptor of their stream; a dropped bundle emits nothing]"
-CLAUSES = {"DESC": DESC, "KEYS": KEYS, "CONF": CONF, "EV_B": EV_B, "EV_M": EV_M, "EV_C": EV_C, "QUIET": QUIET}
+FROZEN = f"{Q}._cache_read_config#ensures[an emitted descriptor keeps recording the configuration of the time it was made: later configures do not alter it]"
+CLAUSES = {"DESC": DESC, "KEYS": KEYS, "CONF": CONF, "EV_B": EV_B, "EV_M": EV_M, "EV_C": EV_C, "QUIET": QUIET, "FROZEN": FROZEN}
 
 
 class Spec:
@@ -45,6 +50,7 @@ class Spec:
         self.action = None
         self.docs = []           # (name, stream) of the documents of the running action
         self._is_monitor = {}    # monitor stream -> monitored object
+        self.made = []           # (descriptor, {object: {key: (value, timestamp)}} as recorded when it was emitted)
 
     # ---- the environment
     def device_reports(self, obj, conf):
@@ -66,8 +72,20 @@ class Spec:
                     conds.append(self.eq(block["timestamps"][key], ts))
         return self.conj(conds)
 
-    def containing(self, obj):
-        return sorted(s for s, d in self.latest.items() if obj in d["object_keys"])
+    def _unaltered(self):
+        """every descriptor emitted so far still holds the configuration it held when it was emitted"""
+        conds = []
+        for desc, snap in self.made:
+            conds.append(sorted(desc["configuration"]) == sorted(snap))
+            for o, rec in snap.items():
+                block = desc["configuration"].get(o)
+                if block is None or (sorted(block["data"]), sorted(block["timestamps"])) != rec["keys"]:
+                    conds.append(False)
+                    continue
+                for key, (value, ts) in rec["cells"].items():
+                    conds.append(self.eq(block["data"][key], value))
+                    conds.append(self.eq(block["timestamps"][key], ts))
+        return self.conj(conds)
 
     # ---- actions
     def begin(self, action):
@@ -87,7 +105,10 @@ class Spec:
                             f"re-made descriptor of {s!r}: data keys {sorted(doc['data_keys'])} (were {sorted(prev['data_keys'])})")
             self.latest[s] = doc
             self.by_uid[doc["uid"]] = s
-        elif name in ("event", "event_page"):
+            self.made.append((doc, {o: {"keys": (sorted(block["data"]), sorted(block["timestamps"])),
+                                        "cells": {k: (block["data"][k], block["timestamps"][k]) for k in block["data"] if k in block["timestamps"]}}
+                                    for o, block in doc["configuration"].items()}))
+        elif name in ("event", "event_page", "stream_datum"):
             s = self.by_uid.get(doc["descriptor"])
             self.docs.append((name, s))
             clause = {"bundle": EV_B, "tick": EV_M, "collect": EV_C}.get(kind)
@@ -128,14 +149,15 @@ class Spec:
         elif a[0] == "tick":
             self.report(EV_M, raised is None and kinds == ["event"], detail)
         elif a[0] == "collect":
-            pages = [s for k, s in self.docs if k == "event_page"]
+            pages = [s for k, s in self.docs if k in ("event_page", "stream_datum")]
             first = [s for k, s in self.docs if k == "descriptor"]
-            self.report(EV_C, raised is None and sorted(pages) == sorted(a[3]) and all(k in ("descriptor", "event_page") for k in kinds)
+            self.report(EV_C, raised is None and sorted(pages) == sorted(a[3]) and all(k in ("descriptor", "event_page", "stream_resource", "stream_datum") for k in kinds)
                         and all(s in a[3] and s not in self.before for s in first), detail)
         elif a[0] in ("declare", "declare_fly", "monitor"):
             self.report(QUIET, raised is None and self.docs == [("descriptor", self._expected_streams()[0])], detail)
         elif a[0] == "dropped":
             self.report(QUIET, raised is None and not self.docs, detail)
+        self.report(FROZEN, self._unaltered(), f"after {a}: a descriptor emitted earlier no longer holds the configuration it was emitted with")
         self.action = None
 
 
